@@ -65,7 +65,13 @@ TrTx ==
            unauth == sp.kind \in RegistryKinds /\ sp.validity \in {"wrongsigner", "missingsig", "notowner", "dropruntime", "badentsig"}
            \* ("hasnodes" - an entity that owns nodes deregisters - is judged on the state: K4 after the block; whether the entity
            \*  still owns a node when the transaction runs depends on expiries and hand-overs earlier in the same block)
-       IN /\ SetBad(<< <<unauth => Ev.code # 0, "A1/K4 a registry transaction without the required authority succeeded">> >>)
+           \* independent of the driver's label: the key that signed the envelope (decoded from the raw bytes) must be the identity
+           \* key of the node the descriptor registers - none of the node's other keys, although each of them signs the descriptor
+           hasF(r, f) == f \in DOMAIN r
+           nodeOf == IF hasF(sp, "node") /\ sp.node # "" THEN sp.node ELSE sp.signer
+           byNodeKey == (sp.kind = "regnode" /\ Ev.code = 0 /\ hasF(Ev, "env") /\ Ev.env.decodable) => Ev.env.signer = nodeOf
+       IN /\ SetBad(<< <<unauth => Ev.code # 0, "A1/K4 a registry transaction without the required authority succeeded">>,
+                       <<byNodeKey, "A1 a node registration succeeded in a transaction not signed by the node's identity key">> >>)
           /\ nAuth' = nAuth + (IF unauth THEN 1 ELSE 0)
     /\ UNCHANGED <<nReg, prevEnts, prevOwn>>
 
